@@ -394,6 +394,13 @@ def gen(rng, tier):
             data = b"".join(b"GET /p%d HTTP/1.1\r\nHost: host1.example\r\n\r\n" % j for j in range(k))
             yield _base(rng, "h1.pipeline-past-limit", data, extra={"config": {"keep_alive_timeout": 5, "keep_alive_max_requests": lim}})
             continue
+        if i % 60 == 44:
+            # request targets in absolute-form (which a server has to accept) with an authority that is anything but well-formed
+            tgt = rng.choice([b"http://[/", b"http://[::1/index", b"http://ex]ample.com/", b"http://[example]/", b"https://user[name@example.com/p", b"http://[::1]:80/ok",
+                              b"HTTP://host1.example", b"http://host1.example?x=[", b"http://@/", b"http://:/", b"http:///"])
+            data = b"GET " + tgt + b" HTTP/1.1\r\nHost: host1.example\r\n" + (b"Connection: Upgrade, HTTP2-Settings\r\nUpgrade: h2c\r\nHTTP2-Settings: \r\n" if rng.random() < 0.3 else b"") + b"\r\n"
+            yield _base(rng, "h1.absolute-form-odd", data)
+            continue
         if i % 60 == 29:
             # input that makes the server give up the connection (a chunk header that is none) arriving while a response is being written
             # to a client that takes nothing: the closing and the write in flight meet
